@@ -70,6 +70,16 @@ def snap(o):
     return _snap(o)
 
 
+class _Unreadable:
+    """content of a file that cannot be unpickled (truncated / corrupt)"""
+
+    def __repr__(self):
+        return "<UNREADABLE>"
+
+
+UNREADABLE = _Unreadable()
+
+
 class FakeFS:
     def __init__(self):
         self.files = {}  # path -> object
